@@ -20,3 +20,6 @@ import RedkaModel.Props.C17
 #print axioms Redka.Props.C17.tobytes_bytes_injective
 #print axioms Redka.Props.C17.tobytes_int_distinct
 #print axioms Redka.Props.C17.tobytes_int_reads_back
+#print axioms Redka.Props.C17.tobytes_float_canonical
+#print axioms Redka.Props.C17.tobytes_float_distinct
+#print axioms Redka.Props.C17.tobytes_total
